@@ -144,7 +144,7 @@ def meshgrid(*axes, batch=False):
     device = None
     if not hasattr(axes, "__len__"):
         axes = [axes]
-    if hasattr(axes[0], "__len__"):
+    if isinstance(axes[0], (list, tuple)):
         axes = axes[0]
     if hasattr(axes[0], "device"):
         device = axes[0].device
